@@ -37,6 +37,8 @@ def run(ctx):
     import conc
     conc.burst(ctx, 6, 1, 12 if ctx.quick() else 120, what=' (identical call sequences on every instance)')
     conc.burst(ctx, 4 if ctx.quick() else 12, 4, 6 if ctx.quick() else 30)
+    for kind, what, k in ((0, 'encaps', 1500), (1, 'PKE encrypt', 800), (2, 'header generate', 800)):
+        conc.burst(ctx, 1, 16, k if ctx.quick() else 12 * k, kind=kind, what=f' (all {what}; contention at volume)')
     # the metadata key must differ from the secret handed to the caller, whatever the authentication data
     import demcheck
     d = demcheck.Demd(); same = []
